@@ -313,6 +313,13 @@ func (p *pat) match(t *Term, b Binds) bool {
 
 // expandAt expands t itself if it is (an extract of) a call of a single-exit repository helper.
 func expandAt(p *Prog, t *Term) *Term {
+	if t.Op == "assert" && len(t.Args) == 1 {
+		// x.(T) of a helper's result: the asserted value is the result itself
+		if nt := expandAt(p, t.Args[0]); nt != nil {
+			return nt
+		}
+		return nil
+	}
 	base := t
 	if base.Op == "obj" && len(base.Args) > 0 {
 		// an object returned by a helper and mutated further: splice the helper's history in front
